@@ -26,32 +26,32 @@ type ExpMsg struct {
 }
 
 type Expect struct {
-	Msgs      []ExpMsg `json:"msgs"`
-	Close     string   `json:"close,omitempty"` // "code:hexreason" when the stream ends with a valid Close frame at a message boundary / inside a message
-	InMsg     bool     `json:"in_msg"`          // a message is in progress when reading stops
-	PartialOf string   `json:"partial_of,omitempty"`
-	Pongs     []string `json:"pongs"`           // pong payloads that must be written (hex), in order
+	Msgs       []ExpMsg `json:"msgs"`
+	Close      string   `json:"close,omitempty"` // "code:hexreason" when the stream ends with a valid Close frame at a message boundary / inside a message
+	InMsg      bool     `json:"in_msg"`          // a message is in progress when reading stops
+	PartialOf  string   `json:"partial_of,omitempty"`
+	Pongs      []string `json:"pongs"`                 // pong payloads that must be written (hex), in order
 	MaybePongs []string `json:"maybe_pongs,omitempty"` // further pongs that may follow (compressed read-ahead)
-	Why       string   `json:"why"`             // human description of the stop point
-	MaxPartial int     `json:"max_partial,omitempty"` // >0: at most this many bytes may be handed out for the failing message
-	WantClose  int     `json:"want_close,omitempty"`  // >0: a Close frame with this code must be written
+	Why        string   `json:"why"`                   // human description of the stop point
+	MaxPartial int      `json:"max_partial,omitempty"` // >0: at most this many bytes may be handed out for the failing message
+	WantClose  int      `json:"want_close,omitempty"`  // >0: a Close frame with this code must be written
 }
 
 type ReadCase struct {
-	Desc    string `json:"desc"`
-	Client  bool   `json:"client"`
-	Flate   bool   `json:"flate"`
-	CNCT    bool   `json:"cnct"`
-	SNCT    bool   `json:"snct"`
-	Limit   *int64 `json:"limit,omitempty"`
+	Desc        string `json:"desc"`
+	Client      bool   `json:"client"`
+	Flate       bool   `json:"flate"`
+	CNCT        bool   `json:"cnct"`
+	SNCT        bool   `json:"snct"`
+	Limit       *int64 `json:"limit,omitempty"`
 	ChangeAfter int    `json:"change_after,omitempty"` // SetReadLimit(Limit2) after this many complete messages (if Limit2 != nil)
-	Limit2  *int64 `json:"limit2,omitempty"`
-	Stream  string `json:"stream"`
-	Chunks  []int  `json:"chunks"`
-	Term    string `json:"term"`
-	Bufs    []int  `json:"bufs"`
-	Exp     Expect `json:"expect"`
-	NoModel bool   `json:"no_model,omitempty"` // malformed DEFLATE etc.: outside the model's contract
+	Limit2      *int64 `json:"limit2,omitempty"`
+	Stream      string `json:"stream"`
+	Chunks      []int  `json:"chunks"`
+	Term        string `json:"term"`
+	Bufs        []int  `json:"bufs"`
+	Exp         Expect `json:"expect"`
+	NoModel     bool   `json:"no_model,omitempty"` // malformed DEFLATE etc.: outside the model's contract
 }
 
 func (c *ReadCase) readTakeover() bool {
